@@ -10,7 +10,7 @@ import (
 	"time"
 )
 
-func runLemmas(L *Loaded, cs *ContractSet, ps *PropSpec, timeout time.Duration, all bool) []*Group {
+func runLemmas(L *Loaded, cs *ContractSet, ps *PropSpec, timeout time.Duration, all bool, known ...KnownFinding) []*Group {
 	var out []*Group
 	want := map[string]bool{}
 	for _, l := range ps.Lemmas {
@@ -21,7 +21,7 @@ func runLemmas(L *Loaded, cs *ContractSet, ps *PropSpec, timeout time.Duration, 
 			continue
 		}
 		delete(want, lm.Name)
-		out = append(out, proveLemma(L, cs, lm, timeout, all))
+		out = append(out, proveLemma(L, cs, lm, timeout, all, known))
 	}
 	for n := range want {
 		g := &Group{Name: "lemma/" + n, Class: "LEMMA", Status: "failed", Info: "lemma not found in the loaded contract files"}
@@ -31,7 +31,7 @@ func runLemmas(L *Loaded, cs *ContractSet, ps *PropSpec, timeout time.Duration, 
 	return out
 }
 
-func proveLemma(L *Loaded, cs *ContractSet, lm *SpecFunc, timeout time.Duration, all bool) *Group {
+func proveLemma(L *Loaded, cs *ContractSet, lm *SpecFunc, timeout time.Duration, all bool, known []KnownFinding) *Group {
 	d := NewDecls()
 	te := NewTypeEnv(d, "seq", false)
 	x := &Exec{L: L, d: d, te: te, cs: cs, notes: map[string]int{}, entryHeap: map[string]Term{}, inputs: map[string]Term{},
@@ -83,6 +83,26 @@ func proveLemma(L *Loaded, cs *ContractSet, lm *SpecFunc, timeout time.Duration,
 		g.Status = "failed"
 	default:
 		g.Status = "undecided"
+	}
+	if r.Answer != "unsat" {
+		// a recorded finding: the lemma holds for every input outside the
+		// recorded failing set
+		for _, kf := range known {
+			if kf.Obligation != name || kf.ExcludedInput == "" {
+				continue
+			}
+			e, err := ParseSpecExpr(kf.ExcludedInput)
+			if err != nil {
+				continue
+			}
+			ex := x.evalBool(env, e)
+			q2 := buildQuery(d.Snapshot(), st.pc, o.Goal, Not(ex))
+			if r2 := Solve(q2, timeout, false); r2.Answer == "unsat" {
+				o.Known = true
+				o.Excl = ex.S
+				g.Status = "known"
+			}
+		}
 	}
 	_ = fmt.Sprint
 	return g
